@@ -320,13 +320,29 @@ func runC14(c *Ctx) {
 				okLoop := false
 				if call != nil {
 					w.eachInstr(caller, func(in ssa.Instruction) {
-						ic, ok := in.(*ssa.Call)
-						if !ok || ic.Call.StaticCallee() == nil || ic.Call.StaticCallee().String() != "errors.Is" {
+						// errors.Is(err, errTryAgain) or err == errTryAgain
+						var tested ssa.Value
+						switch x := in.(type) {
+						case *ssa.Call:
+							if x.Call.StaticCallee() != nil && x.Call.StaticCallee().String() == "errors.Is" {
+								if g := globalLoad(x.Call.Args[1]); g != nil && g.Name() == "errTryAgain" {
+									tested = x.Call.Args[0]
+								}
+							}
+						case *ssa.BinOp:
+							if x.Op == token.EQL || x.Op == token.NEQ {
+								if g := globalLoad(x.Y); g != nil && g.Name() == "errTryAgain" {
+									tested = x.X
+								} else if g := globalLoad(x.X); g != nil && g.Name() == "errTryAgain" {
+									tested = x.Y
+								}
+							}
+						}
+						if tested == nil {
 							return
 						}
-						if g := globalLoad(ic.Call.Args[1]); g == nil || g.Name() != "errTryAgain" {
-							return
-						}
+						ic := struct{ Call struct{ Args []ssa.Value } }{}
+						ic.Call.Args = []ssa.Value{tested}
 						if !w.dependsOn(ic.Call.Args[0], func(v ssa.Value) bool {
 							if v == ssa.Value(call) {
 								return true
